@@ -116,6 +116,29 @@ def _num(v):
     return tm.evalf(v.t, {}) if isinstance(v, SReal) else float(v)
 
 
+def conformance_repo(seed=0, n=20):
+    """The models against the working tree's own functions.norm / functions.rotation_matrix (the
+    real, un-modelled callables) on concrete inputs, including non-unit axes.  A mismatch means the
+    code no longer has the semantics the model assumes, so every proof that used the model is void."""
+    import importlib
+
+    fm = importlib.import_module("classy_blocks.util.functions")
+    real_norm = getattr(fm.norm, "__wrapped_real__", fm.norm)
+    real_rot = getattr(fm.rotation_matrix, "__wrapped_real__", fm.rotation_matrix)
+    rng = random.Random(seed)
+    bad = []
+    for i in range(n):
+        v = [rng.uniform(-5, 5) for _ in range(3)]
+        if abs(norm_model(v) - float(real_norm(np.array(v)))) > 1e-9 * (1 + abs(norm_model(v))):
+            bad.append(("functions.norm", v))
+        ax = [rng.uniform(-3, 3) for _ in range(3)]
+        th = rng.uniform(-7, 7)
+        mod = np.array([[_num(x) for x in row] for row in rodrigues(ax, th)], dtype=float)
+        if np.abs(np.asarray(real_rot(np.array(ax), th), dtype=float) - mod).max() > 1e-8:
+            bad.append(("functions.rotation_matrix", ax, th))
+    return bad[:3]
+
+
 def conformance(seed=0, n=25):
     """Model vs real library function on random concrete inputs. Returns list of failures."""
     import scipy.linalg
